@@ -510,6 +510,12 @@ class RemoteWorker(Worker, metaclass=RemoteWorkerMeta):
 
             incoming = self._ctrl_sock
             logger.debug('Waiting for a connect to the control socket from the parent')
+            # the parent connects right away and sends nothing more on the data connection before that, so if the data
+            # socket becomes readable first, the parent is gone - do not block the whole server waiting for it
+            ready = mp.connection.wait([incoming, self._socket])
+            if incoming not in ready:
+                incoming.close()
+                raise ConnectionClosedError('The parent disconnected before connecting the control channel')
             self._ctrl_sock, ctrl_peer = incoming.accept()
             set_keepalive(self._ctrl_sock, True)
             logger.details('Control sockets connected: {} <==> {}', self._ctrl_sock.getsockname(), ctrl_peer)
